@@ -137,10 +137,13 @@ def run(tier):
         # same, correct posterior after another default inverter has been built on other positions
         if pb["kern"]["k"] == "se":
             try:
-                inv_d = GpLinearInverter(y=y, y_err=yerr, model_matrix=A, parameter_spatial_positions=pos, prior_mean_function=G.build_mean(pb["mean"])[0])
+                # (every other time the two inverters are given ONE covariance-function object instead of the default)
+                shared_k = {} if len(idn["A"]) % 2 else {"prior_covariance_function": (prev_default[5] if prev_default is not None and prev_default[5] is not None
+                                                                                        else G.build_kernel(pb["kern"], d, p)[0])}
+                inv_d = GpLinearInverter(y=y, y_err=yerr, model_matrix=A, parameter_spatial_positions=pos, prior_mean_function=G.build_mean(pb["mean"])[0], **shared_k)
                 mu_d, Sig_d = inv_d.calculate_posterior(th)
                 if prev_default is not None:
-                    pinv, pth, pmu, pSig, pidn = prev_default
+                    pinv, pth, pmu, pSig, pidn, _ = prev_default
                     mu_p, Sig_p = pinv.calculate_posterior(pth)
                     ck.case(str(pidn) + "independent")
                     if not (np.array_equal(mu_p, pmu) and np.array_equal(Sig_p, pSig)):
@@ -149,7 +152,7 @@ def run(tier):
                 if not (GE.close(mu_d, want_mu, ys) and GE.close(np.asarray(Sig_d, dtype=float), want_S, float(np.max(np.abs(prior))))):
                     ck.violation("posterior with the default prior covariance function (squared exponential) = closed form",
                                  {**idn, "want": want_mu, "got": mu_d}, site="GpLinearInverter.calculate_posterior:default-kernel")
-                prev_default = (inv_d, th, mu_d, Sig_d, idn)
+                prev_default = (inv_d, th, mu_d, Sig_d, idn, shared_k.get("prior_covariance_function"))
             except Exception as ex:
                 ck.violation("GpLinearInverter raised on a valid problem", {**idn, "error": repr(ex)[:300]}, site="GpLinearInverter")
         nm = len(pb["mean"]["th"])
